@@ -603,7 +603,50 @@ def rule_binder(ctx):
               "update_binders must hash the same input as verify_binder", ub.loc())
 
 
+def rule_pure_kdf(ctx):
+    """PURE-KDF: the key-derivation and transcript functions are functions of their arguments: no function
+    of mathtls / handshakehashes / handshakehelpers writes module-level state (a memo of derived values keyed
+    on less than every input - e.g. without the transcript - makes Finished independent of the handshake)."""
+    R = "C04.PURE-KDF"
+    n = 0
+    for modname in ("mathtls", "handshakehashes", "handshakehelpers"):
+        mod = ctx.index.module(modname)
+        glob = {t.id for st in mod.tree.body if isinstance(st, (ast.Assign, ast.AugAssign, ast.AnnAssign))
+                for t in (st.targets if isinstance(st, ast.Assign) else [st.target]) if isinstance(t, ast.Name)}
+        for fi in ctx.index.all_functions():
+            if fi.module is not mod:
+                continue
+            n += 1
+            local = {a.arg for a in fi.node.args.args + fi.node.args.kwonlyargs} | \
+                {x.id for x in own_nodes(fi.node) if isinstance(x, ast.Name) and isinstance(x.ctx, ast.Store)}
+            declared = {nm for x in own_nodes(fi.node) if isinstance(x, (ast.Global, ast.Nonlocal)) for nm in x.names}
+            bad = []
+            for x in own_nodes(fi.node):
+                tg = None
+                if isinstance(x, (ast.Subscript, ast.Attribute)) and isinstance(x.ctx, (ast.Store, ast.Del)):
+                    b = x.value
+                    while isinstance(b, (ast.Subscript, ast.Attribute)):
+                        b = b.value
+                    tg = b
+                elif isinstance(x, ast.Call) and isinstance(x.func, ast.Attribute) and x.func.attr in (
+                        "append", "extend", "update", "clear", "pop", "setdefault", "add", "insert", "remove", "popitem") \
+                        and isinstance(x.func.value, ast.Name):
+                    tg = x.func.value
+                elif isinstance(x, ast.Name) and isinstance(x.ctx, ast.Store) and x.id in declared:
+                    tg = x
+                if isinstance(tg, ast.Name) and tg.id in glob and (tg.id not in local or tg.id in declared):
+                    bad.append((x, tg.id))
+            for x, nm in bad[:2]:
+                ctx.fail(R, fi.qname, x, "%s writes the module-level `%s`: derived keys / transcripts kept across calls "
+                         "(and connections) make the result depend on earlier handshakes" % (fi.short, nm), fi.loc(x))
+            if not bad:
+                ctx.ok(R, "%s keeps no module-level state" % fi.short, fi.loc())
+    if n < 20:
+        raise AnalysisError("%s: only %d functions examined" % (R, n))
+
+
 RULES = [
+    ("C04.PURE-KDF", "quick", rule_pure_kdf),
     ("C04.FIN", "quick", rule_fin),
     ("C04.TRANSCRIPT", "quick", rule_transcript),
     ("C04.SCHEDULE", "quick", rule_schedule),
